@@ -61,6 +61,11 @@ class Boom(Exception):
         super().__init__("node %d call %d" % (nid, call))
         self.nid, self.call, self.verdict = nid, call, verdict
 
+    def __bool__(self) -> bool:
+        # every third exception object is FALSY (like an error that carries an empty list of failures): code that tests the truth
+        # value of an exception instead of `is not None` loses it
+        return (self.nid + self.call) % 3 != 0
+
     def key(self) -> tuple:
         return (self.nid, self.call)
 
